@@ -304,12 +304,12 @@ func runInpkg(c *ctxT, bin, test string, netns bool) {
 		return
 	}
 	out := filepath.Join(c.Scratch, test+".json")
-	inner := fmt.Sprintf("mount -t tmpfs tmpfs /run && mkdir -p /run/eni && exec %s -test.run '^%s$' -test.count=1 -test.timeout=60m", path, test)
+	inner := fmt.Sprintf("mount -t tmpfs tmpfs /run && mkdir -p /run/eni && exec %s -test.run '^%s$' -test.count=1 -test.timeout=20m", path, test)
 	var cmd *exec.Cmd
 	if netns {
 		cmd = exec.Command("unshare", "-n", "-m", "sh", "-c", inner)
 	} else {
-		cmd = exec.Command(path, "-test.run", "^"+test+"$", "-test.count=1", "-test.timeout=60m")
+		cmd = exec.Command(path, "-test.run", "^"+test+"$", "-test.count=1", "-test.timeout=20m")
 	}
 	tier := "quick"
 	if c.Thorough {
